@@ -104,7 +104,6 @@ def bulk_insert_node(sql, args_list):
     if not m:
         return None
     first = args_list[0]
-    single = (m.group(1) % ()) if False else None  # noqa (kept for parity with pymysql's q_prefix % ())
     text, _ = bind(sql, first)
     key = (text, len(args_list))
     node = _many_cache.get(key)
@@ -171,6 +170,9 @@ def _prepare(sql, args):
     except SqlCondition as c:
         raise c.to_error() from None
     return node, params
+
+
+_NO_GATE = ('commit', 'rollback', 'noop')
 
 
 def _phase(node):
@@ -340,6 +342,13 @@ class _PoolAcquireContextManager:
             self._conn = None
 
 
+class _Done:
+    """Already-completed awaitable (aiomysql's Pool.release returns a finished future)."""
+
+    def __await__(self):
+        return iter(())
+
+
 class AioCursor(_CursorBase):
     async def execute(self, query, args=None):
         conn = self.connection
@@ -451,6 +460,9 @@ class AioConnection:
             hook(sess, _phase(node), sql)
         gate = eng.gate
         if gate.owner is not sess:
+            if node.k in _NO_GATE and not sess.in_txn:
+                # COMMIT / ROLLBACK / SET with nothing open: no transaction starts, nothing to serialise
+                return eng.execute_node(sess, node, params)
             cb = eng.on_transaction_start
             if cb is not None:
                 await cb(sess)
@@ -576,7 +588,6 @@ class Pool:
                 break
 
     def release(self, conn):
-        fut = asyncio.get_event_loop().create_future() if False else None
         if conn in self._used:
             self._used.discard(conn)
             if not conn.closed:
@@ -589,10 +600,7 @@ class Pool:
                     self._engine.gate.release(conn._sess)
                     self._free.append(conn)
             self._wakeup()
-
-        async def done():
-            return None
-        return done()
+        return _Done()
 
     def close(self):
         self._closing = True
